@@ -322,10 +322,26 @@ def _check_comparison_listens(check, an: Analysis):
                    'Tracked value (%d construction paths)' % n_paths,
                    path=rules.path_lines(bad) if bad else None, analysed=n_paths)
     addl = an.method(TRACKED, '__add_listener__')
-    adds = [n for n in ast.walk(addl.node) if isinstance(n, (ast.Assign, ast.Expr))]
-    check.instance('W', 'Tracked.__add_listener__', any(
-        'self._listeners' in ast.unparse(n) and addl.node.args.args[1].arg in ast.unparse(n)
-        for n in adds), where_fn(addl), 'the listener is recorded in `_listeners`')
+    # ... on every way through (a registration that is skipped for some listeners -- the ones
+    # nobody waits for yet, say -- leaves a comparison that is kept and asked again stale)
+    lparam = addl.node.args.args[1].arg
+    n_add, unrecorded = 0, None
+    for path in an.paths(an.callee(TRACKED, '__add_listener__')):
+        if not path.normal:
+            continue
+        n_add += 1
+        recorded = any(
+            e.kind in ('store', 'call') and e.node is not None
+            and 'self._listeners' in rules.value_text(path, i, e.node)
+            and lparam in rules.value_text(path, i, e.node)
+            for i, e in enumerate(path.events)
+            if e.kind in ('store', 'call') and isinstance(e.node, ast.AST))
+        if not recorded:
+            unrecorded = unrecorded or path
+    check.instance('W', 'Tracked.__add_listener__', unrecorded is None and n_add > 0,
+                   where_fn(addl), 'the listener is recorded in `_listeners` on every way '
+                   'through (%d paths)' % n_add,
+                   path=rules.path_lines(unrecorded) if unrecorded else None, analysed=n_add)
     check_comparison_truth(check, an, 'W')
     check.floor('W', 7)
 
